@@ -159,9 +159,20 @@ pub fn record_schema(a: &Args) {
         o.line(&json!({"ev": "Reset"}));
         let scaled = s % 6 == 5;
         // every eighth session is built around a boundary size (deep chains, wide elements, long names, long runs)
-        let boundary: Option<Vec<Vec<u8>>> = if s % 8 == 7 || boundary_only {
+        // --scale 1: the first session is an element seen 10 050 times, before and after documents whose rows differ in
+        // which children they have (a count threshold in the bookkeeping shows here)
+        let scale_session = a.num("scale", 0) == 1 && s == 0;
+        let boundary: Option<Vec<Vec<u8>>> = if scale_session {
+            let rows = |k: usize| -> String { (0..k).map(|_| "<row><id/><note/></row>").collect() };
+            Some(vec!["<a><row><id/><note/></row><row><id/></row></a>".as_bytes().to_vec(),
+                      format!("<a>{}</a>", rows(10_050)).into_bytes(),
+                      "<a><row><id/><extra/></row></a>".as_bytes().to_vec()])
+        } else if s % 8 == 7 || boundary_only {
             let b = if boundary_only { s } else { s / 8 };
-            Some(boundary_session(&mut r, b, BOUNDARIES[(b / BOUNDARY_KINDS + b) % BOUNDARIES.len()]))
+            // (one chain in six is deeper than 1000 levels: 1001 or 1025)
+            let n = if b % BOUNDARY_KINDS <= 1 && (b / BOUNDARY_KINDS) % 6 == 5 { [1001usize, 1025][(b / BOUNDARY_KINDS / 6) % 2] }
+                    else { BOUNDARIES[(b / BOUNDARY_KINDS + b) % BOUNDARIES.len()] };
+            Some(boundary_session(&mut r, b, n))
         } else {
             None
         };
@@ -228,7 +239,22 @@ pub fn record_schema(a: &Args) {
         }
         // the rendering of the parsed tree (with whatever text content the documents had) for RenderTrace
         // (names outside the model alphabet — damaged documents — cannot be judged by the renderer specification)
-        if let (Some(t), Some(tree)) = (renders.as_mut(), sess.tree.as_ref().filter(|t| crate::render::in_alphabet(&t.verif_view()))) {
+        // one tree in five loses one to three children of its document element through the public API before it is rendered
+        // (what is left must still come in the order of first appearance)
+        if s % 5 == 4 {
+            if let Some(tree) = sess.tree.as_mut() {
+                for _ in 0..(1 + r.below(3)) {
+                    let names: Vec<String> = tree.children().iter().map(|c| c.inner_t().name.clone()).collect();
+                    if names.len() > 1 {
+                        let victim = names[r.below(names.len())].clone();
+                        tree.remove_child(&victim);
+                        session_docs.push(format!("(remove_child {})", victim));
+                    }
+                }
+            }
+        }
+        // (trees deeper than 320 levels are left to SchemaTrace: the renderer specification needs quadratic time in the depth)
+        if let (Some(t), Some(tree)) = (renders.as_mut(), sess.tree.as_ref().filter(|t| { let v = t.verif_view(); crate::render::in_alphabet(&v) && crate::proj::view_depth(&v) <= 320 })) {
             let opts = vec![xml_schema_generator::Options::quick_xml_de(), {
                 let mut s2 = xml_schema_generator::Options::serde_xml_rs();
                 s2.sort = xml_schema_generator::SortBy::XmlName;
